@@ -205,10 +205,12 @@ impl Run {
     }
     pub fn case(&mut self, line: String, out: String) {
         debug_assert!(!line.contains('\n') && !out.contains('\n'));
+        watchdog::beat(Some(&line));
         self.cases.push(line);
         self.impl_out.push(out);
     }
     pub fn stat(&mut self, key: &str, n: u64) {
+        watchdog::beat(None);
         if let Some(e) = self.stats.iter_mut().find(|(k, _)| k == key) {
             e.1 += n;
         } else {
@@ -216,6 +218,7 @@ impl Run {
         }
     }
     pub fn fail(&mut self, property: &str, signature: &str, what: String, replay: String) {
+        watchdog::beat(None);
         if self.oracle_failures.len() < 200 {
             self.oracle_failures.push(OracleFailure { property: property.to_string(), what, replay, signature: signature.to_string() });
         }
@@ -284,6 +287,59 @@ impl Run {
         }
         j.push_str("]\n}\n");
         std::fs::write(format!("{}/{}.meta.json", dir, self.engine), j)
+    }
+}
+
+/// Process-wide watchdog: engines call the real code in-thread, so a non-terminating implementation
+/// (a loop whose exit condition a change has broken) would hang the whole check.  Every `Run::case`
+/// bumps a heartbeat and remembers the request line; if nothing moves for `WATCHDOG_SECS`, the
+/// watchdog thread writes `<out>/<engine>.hang` (the recent request lines = the replay) and exits 4.
+pub mod watchdog {
+    use std::sync::atomic::{AtomicU64, Ordering};
+    use std::sync::Mutex;
+    pub static BEAT: AtomicU64 = AtomicU64::new(0);
+    pub static RECENT: Mutex<Vec<String>> = Mutex::new(Vec::new());
+    pub const WATCHDOG_SECS: u64 = 45;
+    pub fn beat(line: Option<&str>) {
+        BEAT.fetch_add(1, Ordering::Relaxed);
+        if let Some(l) = line {
+            if let Ok(mut r) = RECENT.lock() {
+                if l.ends_with(" new") || l.contains(" new ") {
+                    r.clear(); // a fresh scenario starts: earlier lines are not part of the replay
+                }
+                if r.len() >= 400 {
+                    r.remove(0);
+                }
+                let mut l = l.to_string();
+                if l.len() > 2_000_000 {
+                    l.truncate(2_000_000);
+                }
+                r.push(l);
+            }
+        }
+    }
+    pub fn start(out_dir: String, engine: String) {
+        std::thread::spawn(move || {
+            let mut last = BEAT.load(Ordering::Relaxed);
+            let mut idle = 0u64;
+            loop {
+                std::thread::sleep(std::time::Duration::from_secs(3));
+                let now = BEAT.load(Ordering::Relaxed);
+                if now != last {
+                    last = now;
+                    idle = 0;
+                } else {
+                    idle += 3;
+                }
+                if idle >= WATCHDOG_SECS {
+                    let lines = RECENT.lock().map(|r| r.join("\n")).unwrap_or_default();
+                    let _ = std::fs::create_dir_all(&out_dir);
+                    let _ = std::fs::write(format!("{}/{}.hang", out_dir, engine), lines);
+                    eprintln!("WATCHDOG: engine {} made no progress for {} s", engine, WATCHDOG_SECS);
+                    std::process::exit(4);
+                }
+            }
+        });
     }
 }
 
